@@ -171,6 +171,51 @@ def ctxCandidates (i : Input) (b m : String) (c : Option Nat) : List (Int × Int
 def holdsCtxOffset (i : Input) (T : Table) : Bool :=
   T.all (fun e => (ctxCandidates i e.1.1 e.1.2.1 e.1.2.2).contains e.2)
 
+/-- the (effective) name `nm` is a base-side name of key `k`: `k` itself or `k_N` -/
+def answersKey (k nm : List Char) : Bool :=
+  nm == k || ((k ++ ['_']).isPrefixOf nm && !(nm.drop (k.length + 1)).isEmpty && (nm.drop (k.length + 1)).all Char.isDigit)
+
+/-- the GPOS_Context of a contextual source anchor, as the writer uses it (`.strip()`) -/
+def ctxOfSrc (a : SrcAnchor) : String := stripSp (a.lib.getD "")
+
+/-- `a2` is a contextual anchor (with object-lib data) for the same context and the same anchor key as the one at hand -/
+def ctxCompetes (k : List Char) (ctx : String) (a2 : SrcAnchor) : Bool :=
+  a2.lib.isSome && a2.name.toList.head? == some '*' && ctxOfSrc a2 == ctx && answersKey k (effName a2.name.toList)
+
+/-- the contextual anchor `sb` of glyph `gb` must give mark `gm` a contextual attachment for component `c`:
+    `sb` = `*k[.suffix]` (or `*k_N[.suffix]`, N = c+1) with a non-empty GPOS_Context, `gm` has `_k` on a plain key, both glyphs
+    pass the writer's GDEF / category filters for the destination (mark-to-mark when `gb` is a mark glyph, else ligature for a
+    numbered anchor, else base), and no other anchor of `gb` competes: the name of `sb` occurs once in the glyph and no other
+    contextual anchor of `gb` has the same context and answers the same key (feaLib keeps one `pos` statement per glyph and
+    lookup, so of several the last one wins — for ligature anchors even across components) -/
+def ctxEligible (i : Input) (gb gm : SrcGlyph) (c : Option Nat) (sb : SrcAnchor) : Bool :=
+  sb.lib.isSome && sb.name.toList.head? == some '*' && ctxOfSrc sb != "" &&
+  included i gb.name && included i gm.name && markOK i gm.name &&
+  (match c with
+   | none => isMarkGlyph i gb || baseOK i gb.name || ligIn i gb.name
+   | some _ => !isMarkGlyph i gb && ligOK i gb.name) &&
+  (gb.anchors.filter (fun a2 => a2.name == sb.name)).length == 1 &&
+  gm.anchors.any (fun am => match markKey am.name.toList with
+    | some k => plainKey k && baseNameMatches k c (effName sb.name.toList) &&
+        gb.anchors.all (fun a2 => a2.name == sb.name || !ctxCompetes k (ctxOfSrc sb) a2)
+    | none => false)
+
+/-- the feature that carries the contextual attachments of glyph `gb` -/
+def ctxFeatureOf (i : Input) (gb : SrcGlyph) : String := if isMarkGlyph i gb then "mkmk" else "mark"
+
+/-- C06_ctx_complete on one feature's contextual part (`refs` = the attachment table of every lookup referenced from a
+    chaining rule, `disp` = the dispatch lookups: text before ';' ↦ (comment, statement) lines): every eligible contextual
+    attachment is made by some referenced lookup, and its context is dispatched (a line commented "# <context>" under the
+    lookupflag text before the ';') -/
+def holdsCtxComplete (i : Input) (K : Nat) (feat : String) (refs : List Table) (disp : List (String × List (String × String))) :
+    Bool :=
+  i.glyphs.all (fun gb => gb.anchors.all (fun sb => i.glyphs.all (fun gm => (none :: (List.range K).map some).all (fun c =>
+    !(ctxEligible i gb gm c sb && ctxFeatureOf i gb == feat) ||
+    (refs.any (fun T => T.any (fun e => e.1 == (gb.name, gm.name, c))) &&
+      (match splitCtx (ctxOfSrc sb) with
+       | .ok ba => disp.any (fun d => d.1 == ba.1 && d.2.any (fun l => l.1 == "# " ++ ba.2))
+       | .error _ => true))))))
+
 /-- the table a program yields on a list of queries -/
 def tableOf (P : Program) (ls : List Lookup) (qs : List Query) : Table :=
   qs.filterMap (fun q => (attach P ls q.1 q.2.1 q.2.2).map (fun d => (q, d)))
